@@ -26,8 +26,8 @@ R-GEN-MEMO       a changed function keeps a result in a store the reference modu
                  reference body reads; a module-level memo must be keyed on everything the reference body reads from its parameters
 R-GEN-ACCUM      a counter / accumulator the reference advances (`x += e`) is advanced under more tests than in the reference (it is
                  updated on one branch only)
-R-GEN-STORE      a store into a container under a key (`m[k] = v`) that the reference function makes is gone while the function still
-                 uses the container (bookkeeping of two parallel structures drifts apart)
+R-GEN-STORE      a store into a container under a key (`m[k] = v`) that the reference function makes in a branch is gone from that
+                 branch while the branch (the same tests around it) still exists (bookkeeping of two parallel structures drifts apart)
 R-GEN-CARRY      a loop-carried copy (`prev = cur` in a loop body) changed places: reads of `prev` that saw the value of the previous
                  round now see the current one (or the reverse)
 R-GEN-STOREORDER the stores to self that the reference method makes in one block are made in another order (a value that fails
@@ -202,6 +202,32 @@ def _carried_copies(fn):
                 else:
                     out[k] = (loads(lp.body[:i]), loads(lp.body[i + 1:]))
     return {k: v for k, v in out.items() if v is not None}
+
+
+def _stmt_guards(fn):
+    """every simple statement of fn with the set of tests (and handler / loop-else markers) it stands under"""
+    out = []
+
+    def rec(stmts, guards):
+        for st in stmts:
+            if isinstance(st, ast.If):
+                rec(st.body, guards | {'if ' + _txt(st.test)})
+                rec(st.orelse, guards | {'else ' + _txt(st.test)})
+            elif isinstance(st, (ast.For, ast.AsyncFor, ast.While)):
+                rec(st.body, guards)
+                rec(st.orelse, guards | {'else of the loop'})
+            elif isinstance(st, (ast.With, ast.AsyncWith)):
+                rec(st.body, guards)
+            elif isinstance(st, ast.Try):
+                rec(st.body, guards | {'try'})
+                for h in st.handlers:
+                    rec(h.body, guards | {'except ' + (_txt(h.type) if h.type is not None else '')})
+                rec(st.orelse, guards)
+                rec(st.finalbody, guards)
+            elif not isinstance(st, (ast.FunctionDef, ast.AsyncFunctionDef, ast.ClassDef)):
+                out.append((st, frozenset(guards)))
+    rec(fn.body, frozenset())
+    return out
 
 
 def _isinstance_tests(f):
@@ -566,23 +592,28 @@ def check(rep, ix):
                            required=f'{rcar[k_][0]} reads before, {rcar[k_][1]} after', module=mod, node=f)
             # ---- keyed stores that are gone
             def keyed_stores(fn):
-                out = {}
-                for n in ast.walk(fn):
-                    if isinstance(n, (ast.Assign, ast.AugAssign)):
-                        for t in (n.targets if isinstance(n, ast.Assign) else [n.target]):
+                out, branches = {}, set()
+                for st, g_ in _stmt_guards(fn):
+                    branches.add(g_)
+                    if isinstance(st, (ast.Assign, ast.AugAssign)):
+                        for t in (st.targets if isinstance(st, ast.Assign) else [st.target]):
                             if isinstance(t, ast.Subscript):
-                                k = (_txt(t.value), _txt(t.slice))
-                                out[k] = out.get(k, 0) + 1
-                return out
-            rks, cks = keyed_stores(rf), keyed_stores(f)
-            cur_texts = {_txt(n) for n in ast.walk(f) if isinstance(n, (ast.Name, ast.Attribute))}
-            for (cont, key), cnt in sorted(rks.items()):
-                have = cks.get((cont, key), 0)
-                if have >= cnt:
-                    rep.ob('R-GEN-STORE', site, f'`{cont}[{key}]` is stored as often as in the validated function', True, module=mod, node=f)
-                elif cont in cur_texts and not any(c_ == cont and (c_, k_) not in rks for c_, k_ in cks):
-                    rep.ob('R-GEN-STORE', site, f'`{cont}[{key}]` is stored as often as in the validated function', False, found=f'{have} store(s) under `{key}`; `{cont}` is still used', required=f'{cnt} store(s)',
-                           module=mod, node=f)
+                                out.setdefault((_txt(t.value), _txt(t.slice)), set()).add(g_)
+                return out, branches
+            (rks, _rb), (cks, cbranches) = keyed_stores(rf), keyed_stores(f)
+            for (cont, key), gsets in sorted(rks.items()):
+                # (a branch of the validated function that still exists - same tests around it - and no longer makes the store; a
+                # restructured function, whose branches are other ones, is not judged)
+                gone = [g_ for g_ in gsets if g_ in cbranches and g_ not in cks.get((cont, key), set())]
+                if any(c_ == cont and (c_, k_) not in rks for c_, k_ in cks) or any(isinstance(n, ast.Call) and isinstance(n.func, ast.Attribute) and n.func.attr in ('setdefault', 'update')
+                                                                                      and _txt(n.func.value) == cont for n in ast.walk(f)):
+                    gone = []       # the container is stored under a key spelled differently (a renamed variable) or through a method: not judged
+                kept = [g_ for g_ in gsets if g_ in cks.get((cont, key), set())]
+                if gone:
+                    rep.ob('R-GEN-STORE', site, f'`{cont}[{key}]` is stored in the branches in which the validated function stores it', False,
+                           found=f'no store under {sorted(gone[0]) or "the function body"}', required=f'{cont}[{key}] = ... there', module=mod, node=f)
+                elif kept:
+                    rep.ob('R-GEN-STORE', site, f'`{cont}[{key}]` is stored in the branches in which the validated function stores it', True, module=mod, node=f)
             # ---- isinstance class sets
             ri, ci = _isinstance_tests(rf), _isinstance_tests(f)
             for x in sorted(ri):
